@@ -1,4 +1,4 @@
-import NomtModel.Store.GenFnCheck3
+import NomtModel.Store.GenFnCheck6
 /-!
 # C16 (topic: translated functions — page arithmetic of the on-disk formats)
 
@@ -59,6 +59,21 @@ theorem T16_fn_fast_iter_ones_next (w : Nat) :
       some (if Wal.PageDiff.trailingZeros w = 64 then (none, w)
             else (some (Wal.PageDiff.trailingZeros w), w &&& (Wal.U64_MAX - 2 ^ Wal.PageDiff.trailingZeros w))) :=
   GenFnCheck.fast_iter_ones_next_eq w
+
+/-- T16.fn-8 `PageDiff::join` of the current source (struct result = the two words) is the mirror's word-wise OR -/
+theorem T16_fn_page_diff_join (a b : Wal.PageDiff) :
+    GenFn.pd_join a.w0 a.w1 b.w0 b.w1 = some ((a.join b).w0, (a.join b).w1) := GenFnCheck.pd_join_eq a b
+
+/-- T16.fn-9 `prefix_len(key_a, key_b)` of the current source — a NESTED loop: the outer `for byte in 0..32` translated as recursion on the
+remaining iterations, the inner `for bit in 0..8` unrolled, `break 'byte_loop` leaving both — is the mirror `BitOps.prefixLen` on any two
+32-byte keys (no panic: no index out of bounds, no overflow of `bit_len`) -/
+theorem T16_fn_prefix_len (a b : List Nat) (ha : a.length = 32) (hb : b.length = 32) :
+    GenFn.prefix_len a b = some (BitOps.prefixLen a b) := GenFnCheck.prefix_len_eq a b ha hb
+
+set_option maxRecDepth 65536 in
+example : GenFn.prefix_len (List.replicate 32 0) (List.replicate 31 0 ++ [1]) = some 255 ∧
+    GenFn.prefix_len (0x80 :: List.replicate 31 0) (List.replicate 32 0) = some 0 ∧
+    GenFn.prefix_len (List.replicate 31 0) (List.replicate 32 0) = none := by decide
 
 example : GenFn.pd_set_changed 0 (2 ^ 63) 64 = some (0, 1) ∧ GenFn.pd_set_changed 0 0 126 = none ∧ GenFn.pd_changed 5 0 2 = some true ∧
     GenFn.pd_changed 5 0 128 = none ∧ GenFn.pd_count 7 (2 ^ 63) = some 4 ∧ GenFn.fast_iter_ones_next 12 = some (some 2, 8) ∧
